@@ -43,8 +43,21 @@ pub fn run_xdh(tr: &mut Trace, rng: &mut Rng, n: usize) {
         let e = Ev::new("x25519").b("k", &k).b("u", &u);
         match guarded(move || crrl::x25519::x25519(&ua, &ka)) { Ok(o) => tr.emit(e.b("out", &o)), Err(m) => tr.emit(e.s("panic", &m)) }
     }
-    for i in 0..(n / 2 + 6) {
-        let k = if i < ks.len() { ks[i].clone() } else { rng.bytes(32) };
+    // base-point path: the clamped scalar is reduced modulo the subgroup order L and fed to the Edwards generator
+    // multiplication; clamped values j*L - t reduce to L - t, the top of the scalar range (top recoding digit)
+    let l25519 = (&one << 252) + BigUint::parse_bytes(b"27742317777372353535851937790883648493", 10).unwrap();
+    let mut kb: Vec<Vec<u8>> = Vec::new();
+    for j in 4u32..8 { for t in 0u32..24 {
+        let sv: BigUint = &l25519 * j - t;
+        if (&sv % 8u32) == BigUint::from(0u32) && sv.bits() == 255 {
+            kb.push(le32(&sv));
+            let mut g = le32(&sv); g[0] |= 7; g[31] |= 0x80; kb.push(g);      // the bits that clamping clears / ignores
+        }
+        let sv: BigUint = &l25519 * j + t;
+        if t < 9 && (&sv % 8u32) == BigUint::from(0u32) && sv.bits() == 255 { kb.push(le32(&sv)); }
+    } }
+    for i in 0..(n / 2 + 6 + kb.len()) {
+        let k = if i < ks.len() { ks[i].clone() } else if i < ks.len() + kb.len() { kb[i - ks.len()].clone() } else { rng.bytes(32) };
         let ka: [u8; 32] = k.clone().try_into().unwrap();
         let e = Ev::new("x25519_base").b("k", &k);
         match guarded(move || crrl::x25519::x25519_base(&ka)) { Ok(o) => tr.emit(e.b("out", &o)), Err(m) => tr.emit(e.s("panic", &m)) }
@@ -64,8 +77,16 @@ pub fn run_xdh(tr: &mut Trace, rng: &mut Rng, n: usize) {
         let e = Ev::new("x448").b("k", &k).b("u", &u);
         match guarded(move || crrl::x448::x448(&ua, &ka)) { Ok(o) => tr.emit(e.b("out", &o)), Err(m) => tr.emit(e.s("panic", &m)) }
     }
-    for i in 0..(n / 6 + 4) {
-        let k = if i < ks.len() { ks[i].clone() } else { rng.bytes(56) };
+    let l448 = (&one << 446) - BigUint::parse_bytes(b"13818066809895115352007386748515426880336692474882178609894547503885", 10).unwrap();
+    let mut kb: Vec<Vec<u8>> = Vec::new();
+    for j in 2u32..5 { for t in 0u32..12 {
+        let sv: BigUint = &l448 * j - t;
+        if (&sv % 4u32) == BigUint::from(0u32) && sv.bits() == 448 { kb.push(le56(&sv)); let mut g = le56(&sv); g[0] |= 3; kb.push(g); }
+        let sv: BigUint = &l448 * j + t;
+        if t < 5 && (&sv % 4u32) == BigUint::from(0u32) && sv.bits() == 448 { kb.push(le56(&sv)); }
+    } }
+    for i in 0..(n / 6 + 4 + kb.len()) {
+        let k = if i < ks.len() { ks[i].clone() } else if i < ks.len() + kb.len() { kb[i - ks.len()].clone() } else { rng.bytes(56) };
         let ka: [u8; 56] = k.clone().try_into().unwrap();
         let e = Ev::new("x448_base").b("k", &k);
         match guarded(move || crrl::x448::x448_base(&ka)) { Ok(o) => tr.emit(e.b("out", &o)), Err(m) => tr.emit(e.s("panic", &m)) }
